@@ -19,7 +19,7 @@ from ahrs.common import orientation as ori
 TOL_EXACT = 1e-12      # Shepperd, Bar-Itzhack
 TOL_CLOSED = 1e-7      # Chiaverini, Hughes, Sarabandi (one sqrt of a cancelling sum)
 
-VARIANTS = [("shepperd", {}), ("chiaverini", {}), ("hughes", {}),
+VARIANTS = [("default", {}), ("shepperd", {}), ("chiaverini", {}), ("hughes", {}),
             ("sarabandi", {"threshold": 0.0}), ("sarabandi", {"threshold": -0.5}), ("sarabandi", {"threshold": 0.5}),
             ("itzhack", {"version": 1}), ("itzhack", {"version": 2}), ("itzhack", {"version": 3})]
 
@@ -36,6 +36,18 @@ def fillers(k):
 
 def dispatch(disp, R, m, kw):
     """returns the 4 floats (or raises)"""
+    if m == "default":
+        # no method argument: the documented default (Shepperd) on every dispatcher
+        if disp == "function":
+            return ori.shepperd(R.copy())
+        if disp == "DCM.to_quaternion":
+            return DCM(R.copy()).to_quaternion()
+        if disp == "Quaternion(dcm=)":
+            return Quaternion(dcm=R.copy())
+        n, pos = [int(x) for x in disp.split("#")[1].split("@")]
+        rows = fillers(n - 1)
+        rows.insert(pos, R.copy())
+        return QuaternionArray(DCM=np.array(rows))[pos]
     if disp == "function":
         if m == "itzhack":
             return ori.itzhack(R.copy(), version=kw["version"])
@@ -66,7 +78,7 @@ def check_case(t, rec, cls, mirror_checked=True):
     n2 = core.norm2(u)
     closed_ok = w2 * 4 * 10 ** 12 >= n2      # angle <= pi - 1e-6  <=>  |w|/|u| >= sin(5e-7)
     for m, kw in VARIANTS:
-        if m in ("shepperd",):
+        if m in ("shepperd", "default"):
             allowed, tol = [g_unit(o) for o in rec["shepperd"]], TOL_EXACT
         elif m == "itzhack":
             allowed, tol = [g_unit(u), -g_unit(u)], TOL_EXACT
